@@ -17,6 +17,9 @@ func init() {
 	Replayers["C15"] = func(rp *eng.Replay) (bool, string) {
 		sys := newReaderSys(nil, false)
 		sys.quiet = true
+		if l, ok := rp.Extra["lazy"].(bool); ok {
+			sys.lazy = l
+		}
 		last := -1
 		if v, ok := rp.Extra["op"].(float64); ok {
 			last = int(v)
@@ -101,22 +104,42 @@ func resStr(a readerRes) string {
 
 // scribble modifies a result in place the way a caller may: overwrite elements, write into the
 // spare capacity of returned slices, add and overwrite map keys.
+var scribbleCount int
+
 func scribble(v interface{}) {
+	// Containers stay reachable from their parents (only scalars are overwritten), so that a
+	// container shared between two results remains observable from both; every map gets a key
+	// no other map has.
+	isContainer := func(c interface{}) bool {
+		switch c.(type) {
+		case []interface{}, map[string]interface{}:
+			return true
+		}
+		return false
+	}
 	switch x := v.(type) {
 	case []interface{}:
 		for i := range x {
-			scribble(x[i])
+			if isContainer(x[i]) {
+				scribble(x[i])
+			} else {
+				x[i] = "scribbled"
+			}
 		}
 		full := x[:cap(x)]
-		for i := range full {
+		for i := len(x); i < len(full); i++ {
 			full[i] = "scribbled"
 		}
 	case map[string]interface{}:
 		for k, vv := range x {
-			scribble(vv)
-			x[k] = "scribbled"
+			if isContainer(vv) {
+				scribble(vv)
+			} else {
+				x[k] = "scribbled"
+			}
 		}
-		x["scribbled-key"] = []interface{}{"scribbled"}
+		scribbleCount++
+		x[fmt.Sprintf("scribbled-key-%d", scribbleCount)] = []interface{}{"scribbled"}
 	}
 }
 
@@ -150,10 +173,17 @@ func readerDocs(thorough bool) map[string][]byte {
 		"arrpartial":    []byte(`[[7,8,`),
 		"objsmall":      []byte(`{"name":"x"}`),
 		"arrobjsmall":   []byte(`[{"name":"x"}]`),
-		"layout-1":      []byte(`{"id":1,"name":"x","seq":"0001"}`),
-		"layout-2":      []byte(`{"no":2,"kind":"y","seq":"0002"}`),
-		"layout-3":      []byte(`["0001",{"ab":1,"xy":"one"}]`),
-		"layout-4":      []byte(`["0002",{"cd":2,"zw":"two"}]`),
+		// member counts exactly at powers of two (thresholds in container handling)
+		"arr256":      []byte("[" + strings.TrimSuffix(strings.Repeat("1,", 256), ",") + "]"),
+		"arr1024":     []byte("[" + strings.TrimSuffix(strings.Repeat("1,", 1024), ",") + "]"),
+		"arr4096":     []byte("[" + strings.TrimSuffix(strings.Repeat("1,", 4096), ",") + "]"),
+		"obj256":      []byte(c15Obj(256)),
+		"obj1024":     []byte(c15Obj(1024)),
+		"nestedempty": []byte(`[{},{"a":{}},[{}]]`),
+		"layout-1":    []byte(`{"id":1,"name":"x","seq":"0001"}`),
+		"layout-2":    []byte(`{"no":2,"kind":"y","seq":"0002"}`),
+		"layout-3":    []byte(`["0001",{"ab":1,"xy":"one"}]`),
+		"layout-4":    []byte(`["0002",{"cd":2,"zw":"two"}]`),
 		// numbers on the multiprecision fallback (after a range error on the same reader)
 		"slowfloats":  []byte(`[9007199254740993.000000000000000000001,4503599627370497.5,1.00000000000000011102230246251565404236316680908203125]`),
 		"underflow":   []byte(`[1e-999,4.9406564584124654e-324]`),
@@ -184,6 +214,9 @@ type readerSys struct {
 	quiet   bool
 	lastBad string
 	poolHit int
+	// lazy: results are left untouched until the last call of the history has returned; only then
+	// is the last result scribbled over (eager mode scribbles over every result at once)
+	lazy bool
 }
 
 func newReaderSys(r *eng.Run, thorough bool) *readerSys {
@@ -227,7 +260,7 @@ func (s *readerSys) Replay(hist []int, last int) string {
 		s.lastBad = fmt.Sprintf("%s: expected %s got %s", sig, exp, got)
 		if !s.quiet && s.r != nil {
 			s.r.Violation(eng.Replay{Engine: "hist", Entry: s.ops[i].name, Sig: sig, History: append(s.names(hist), s.ops[i].name), Expected: exp, Got: got,
-				Extra: map[string]interface{}{"hist": hist, "op": i}})
+				Extra: map[string]interface{}{"hist": hist, "op": i, "lazy": s.lazy}})
 		}
 	}
 	step := func(i int, check bool) {
@@ -248,6 +281,11 @@ func (s *readerSys) Replay(hist []int, last int) string {
 			}
 		}
 		fr := readerRes{cloneTree(res.v), res.p, res.err}
+		if s.lazy && !check {
+			results = append(results, res)
+			frozen = append(frozen, fr)
+			return
+		}
 		// the caller modifies what it got back
 		scribble(res.v)
 		if check {
@@ -291,7 +329,7 @@ func c15(r *eng.Run) {
 	// a refactoring); short histories are therefore also enumerated outright
 	var cheap []int
 	for i, op := range sys.ops {
-		if len(op.doc) < 200 && op.miss == "hit" {
+		if (len(op.doc) < 200 || strings.HasPrefix(op.name, "ReadValue/arr1024") || strings.HasPrefix(op.name, "ReadArray/arr1024") || strings.HasPrefix(op.name, "ReadArray/arr256")) && op.miss == "hit" {
 			cheap = append(cheap, i)
 		}
 	}
@@ -342,6 +380,48 @@ func c15(r *eng.Run) {
 	}
 	r.Set("pumped_histories", pumped)
 	st.Transitions += pumped
+	// all triples over a core set: every entry point x tiny documents of each outcome kind
+	// (array / object success, array / object failure after a stored member, null)
+	var core []int
+	for i, op := range sys.ops {
+		if op.miss != "hit" {
+			continue
+		}
+		for _, dn := range []string{"arrs", "objs", "eof", "objpartial", "arrpartial", "null", "objsmall", "strs", "nestedempty"} {
+			if strings.HasSuffix(op.name, "/"+dn+"/hit") {
+				core = append(core, i)
+			}
+		}
+	}
+	for _, lazy := range []bool{true, false} {
+		sys.lazy = lazy
+		for _, a := range core {
+			for _, b := range core {
+				if lazy {
+					sys.Replay([]int{a}, b)
+					nPairs++
+					continue
+				}
+				for _, c := range core {
+					sys.Replay([]int{a, b}, c)
+					nPairs++
+				}
+			}
+			if r.TooMany() {
+				break
+			}
+		}
+	}
+	// lazy pairs over all cheap documents
+	sys.lazy = true
+	for _, a := range cheap {
+		for _, b := range cheap {
+			sys.Replay([]int{a}, b)
+			nPairs++
+		}
+	}
+	sys.lazy = false
+	r.Set("core_triple_ops", len(core))
 	r.Set("histories_without_dedup", nPairs)
 	st.Transitions += nPairs
 	r.Set("states", st.States)
@@ -359,4 +439,17 @@ func c15(r *eng.Run) {
 	}
 	r.Sample(map[string]interface{}{"kind": "history", "ops": []string{"ReadValue/wide/hit", "ReadArray/eof/hit", "ReadValue/mixed/miss1"}, "note": "after each call the caller scribbles over the result; the last call is compared with a brand-new reader and all earlier results with their frozen copies"})
 	r.Set("rule", "E3: BFS over call histories on one ValueReader (sync.Pool replaced by a deterministic shim whose Get answers are part of the op: always hit / first Get misses / always miss); alphabet = {ReadValue, ReadObject, ReadArray} x documents (scalars, empty and nested containers, escaped duplicate keys, escapes, a 50-key object, EOF / syntax / number-overflow errors, depth 30, depth 10001); dedup key = canonical reader state by reflection (depth, size hints, scratch len/cap, container fields, buffer, pool contents recursively). Every transition: result == brand-new reader's; all earlier results == frozen copies, also after the caller scribbles over every returned slice (within capacity) and map.")
+}
+
+func c15Obj(n int) string {
+	var sb strings.Builder
+	sb.WriteString("{")
+	for i := 0; i < n; i++ {
+		if i > 0 {
+			sb.WriteString(",")
+		}
+		fmt.Fprintf(&sb, `"k%d":%d`, i, i)
+	}
+	sb.WriteString("}")
+	return sb.String()
 }
